@@ -64,7 +64,7 @@ var checks = map[string]*Check{
 	},
 	"C05": {
 		Legs:        []Leg{{World: "C05", Weight: 1}},
-		Probes:      []string{"body_larger_than_buffers", "lockstep_multi_chunk", "through_wrapped_handler_chain", "declared_length_multi_chunk"},
+		Probes:      []string{"body_larger_than_buffers", "lockstep_multi_chunk", "through_wrapped_handler_chain", "declared_length_multi_chunk", "retry_while_streaming"},
 		Rule:        "Real agent vs fake proxy that decodes the upload incrementally; lock-step backend flushes chunk i+1 only after the proxy saw chunk i; 1..12 (thorough ..200) chunks of 1 B..70 KiB (thorough ..2 MiB), pauses, agent handler chain drawn per run (sessions / banner / shim wrappers on or off), backend framing chunked or with a declared Content-Length, SimNet buffer sizes 1..256 KiB, latency 0..200 ms. Each chunk must be visible within 2 s + network time.",
 		Assumptions: commonAssumptions,
 		RealStub:    coreRealStub,
@@ -102,7 +102,7 @@ var checks = map[string]*Check{
 		RealStub:    coreRealStub,
 	},
 	"C02": {
-		Legs:        []Leg{{World: "C02", Weight: 5}, {World: "C02/slow", Weight: 2}},
+		Legs:        []Leg{{World: "C02", Weight: 5}, {World: "C02/slow", Weight: 2}, {World: "C02/bfault", Weight: 2}},
 		Probes:      []string{"body_at_least_4096", "escaped_target", "custom_fields"},
 		Rule:        "Raw TCP client (exact bytes, tape-chosen write sizes and pauses) -> real proxy -> real agent -> raw recording backend with an independent wire parser; 1..4 requests in flight; generated methods (incl. extension tokens), origin-form targets with escapes / dot segments / queries without ';', Host variants, 0..8 header fields with repeats, empty and long values, hop-by-hop fields, bodies 0..70 KiB (thorough ..5 MiB) by Content-Length or chunked; SimNet segmentation up to 1-byte segments. Input-dominated: the simulator contributes segmentation, pauses and concurrent traffic.",
 		Assumptions: commonAssumptions,
